@@ -177,3 +177,100 @@ func VerifC14NodeDown() {
 	n.RouteNodeDown("x@h", gen.ErrNoConnection)
 	check(true)
 }
+
+// vfRecConn is a fake connection that records what the node hands it.
+type vfRecConn struct {
+	vfConn
+	downs      int // MessageDown* sent as ordinary messages to a process on the peer
+	exits      int // exit signals sent to a process on the peer
+	termPID    int
+	termName   int
+	termAlias  int
+	termEvent  int
+	otherSends int
+}
+
+func (c *vfRecConn) SendPID(from gen.PID, to gen.PID, options gen.MessageOptions, message any) error {
+	switch message.(type) {
+	case gen.MessageDownPID, gen.MessageDownProcessID, gen.MessageDownAlias, gen.MessageDownEvent:
+		c.downs++
+	default:
+		c.otherSends++
+	}
+	return nil
+}
+func (c *vfRecConn) SendExit(from gen.PID, to gen.PID, reason error) error { c.exits++; return nil }
+func (c *vfRecConn) SendTerminatePID(target gen.PID, reason error) error  { c.termPID++; return nil }
+func (c *vfRecConn) SendTerminateProcessID(target gen.ProcessID, reason error) error {
+	c.termName++
+	return nil
+}
+func (c *vfRecConn) SendTerminateAlias(target gen.Alias, reason error) error { c.termAlias++; return nil }
+func (c *vfRecConn) SendTerminateEvent(target gen.Event, reason error) error { c.termEvent++; return nil }
+
+// VerifC14LocalTargetGone: processes on node x hold links and monitors (a symbolic set) on a LOCAL
+// target - process, registered name, alias or event; the relations are registered the way the
+// connection does it for a remote requester (core.Route{Link,Monitor}*). Then the target goes away.
+// The peer must be told by exactly one termination notice for that target (which the peer fans out to
+// its own requesters), and a node without relations on the target is told nothing.
+func VerifC14LocalTargetGone() {
+	kind := lib.VerifShard("kind", 4)
+	lib.VerifClockAdvance(0)
+	w := c04Setup()
+	n := w.n
+	cx, cy := &vfRecConn{}, &vfRecConn{}
+	cx.peer, cy.peer = "x@h", "y@h"
+	n.network.connections.Store(gen.Atom("x@h"), cx)
+	n.network.connections.Store(gen.Atom("y@h"), cy)
+	r1 := gen.PID{Node: "x@h", ID: 7001, Creation: 3}
+	r2 := gen.PID{Node: "x@h", ID: 7002, Creation: 3}
+	linked := lib.VerifPick("r1-links", 2) == 1
+	monitored := lib.VerifPick("r2-monitors", 2) == 1
+	also := lib.VerifPick("r1-monitors-too", 2) == 1
+	var err error
+	if linked {
+		switch kind {
+		case 0:
+			err = n.RouteLinkPID(r1, w.t.pid)
+		case 1:
+			err = n.RouteLinkProcessID(r1, gen.ProcessID{Name: w.name, Node: n.name})
+		case 2:
+			err = n.RouteLinkAlias(r1, w.alias)
+		case 3:
+			_, err = n.RouteLinkEvent(r1, w.event)
+		}
+		lib.VerifAssert(err == nil, "remote link registered")
+	}
+	for i, who := range []gen.PID{r2, r1} {
+		if (i == 0 && !monitored) || (i == 1 && !also) {
+			continue
+		}
+		switch kind {
+		case 0:
+			err = n.RouteMonitorPID(who, w.t.pid)
+		case 1:
+			err = n.RouteMonitorProcessID(who, gen.ProcessID{Name: w.name, Node: n.name})
+		case 2:
+			err = n.RouteMonitorAlias(who, w.alias)
+		case 3:
+			_, err = n.RouteMonitorEvent(who, w.event)
+		}
+		lib.VerifAssert(err == nil, "remote monitor registered")
+	}
+	any := linked || monitored || also
+	// the target goes away
+	w.t.state = int32(gen.ProcessStateTerminated)
+	n.unregisterProcess(w.t, errVfReason)
+	lib.VerifYield()
+	notices := []int{cx.termPID, cx.termName, cx.termAlias, cx.termEvent}[kind]
+	if any {
+		lib.VerifAssert(notices == 1, "the peer holding relations on the target gets exactly one termination notice for it")
+	} else {
+		lib.VerifAssert(notices == 0, "a peer without relations on the target gets no termination notice for it")
+	}
+	// (The node also hands the connection a direct copy of each down message for a remote monitor;
+	// the real connection cannot encode those gen.MessageDown* values and drops them, so the requester
+	// sees one notification - confirmed with two real nodes. That is not asserted either way here.)
+	lib.VerifAssert(cy.downs+cy.exits+cy.termPID+cy.termName+cy.termAlias+cy.termEvent == 0, "a node without relations on the target is told nothing")
+	lib.VerifReach("local target gone")
+}
